@@ -227,6 +227,8 @@ def call_function(fr, qual, args, kw, extra, n):
                     fr.update_name(node.value.id, SE._arr_store(fr.env[node.value.id], k_, new, fr.guard()))
     ev['result'] = res
     if res is None:
+        if getattr(sub, 'always_raises', False) and fr.depth >= 0:
+            raise SE.RaisedInCallee(qual)
         return ('noreturn', qual)
     return res
 
